@@ -52,6 +52,7 @@ class Ctx:
                       'calls_interp': 0, 'calls_model': 0, 'infeasible': 0}
         self.depth = 0
         self.cur_fn = None
+        self.path_steps = 0; self.path_step_cap = 40_000_000          # MIR statements per execution path
         self.xcheck_every = int(os.environ.get('VERIF_XCHECK', '0') or 0)   # cross-check every n-th property query with cvc5
         self.tyargs = []              # stack of explicit type arguments of the calls being executed
         self.intercept = {}           # key or callee prefix -> python fn(ctx, call, *args)  (harness hooks)
@@ -865,9 +866,11 @@ class Ctx:
                 if nxt is None:
                     raise Unsupported('fell off block ' + bb + ' in ' + fn.name)
                 bb = nxt
-                self.stats['steps'] += steps; steps = 0
+                self.stats['steps'] += steps; self.path_steps += steps; steps = 0
                 if self.stats['steps'] > self.step_cap:
                     raise Unsupported('step cap')
+                if self.path_steps > self.path_step_cap:
+                    raise Unsupported('one execution path exceeds the per-path step budget (non-terminating loop in the code under test or in an environment stub?)')
         finally:
             self.depth -= 1
             self.cur_fn = prev
@@ -946,7 +949,7 @@ class Ctx:
         self.solver.reset(); self.solver.set('timeout', 60000); self.sol_n = 0; self.sol_pc = []
         t0 = time.time()
         while self.todo:
-            self.script = self.todo.pop(); self.di = 0; self.pc = []
+            self.script = self.todo.pop(); self.di = 0; self.pc = []; self.path_steps = 0
             self.nfresh = 0
             self.depth = 0; self.cur_fn = None; self.path_notes = []
             try:
